@@ -23,6 +23,20 @@ pub struct EngineProp {
     pub alt_profile: Option<fn(Tier) -> Profile>,
 }
 
+pub fn dump_trace(tr: &Trace) {
+    if std::env::var("VERIF_TRACE").is_ok() {
+        for (i, e) in tr.evs.iter().enumerate() {
+            match e {
+                Ev::Emit { ix } => {
+                    let em = &tr.emitted[*ix];
+                    println!("{:4} Emit conn={} t={} call={} spans={} tag={:?} {:?}", i, em.conn, em.t, em.call, em.calls_spanned, em.tag, em.pkt);
+                }
+                other => println!("{:4} {:?}", i, other),
+            }
+        }
+    }
+}
+
 /// labels shared by all engine properties, computed from the trace only
 pub fn common_labels(ix: &Index) -> Vec<String> {
     let tr = ix.tr;
@@ -214,17 +228,7 @@ impl Property for EngineProp {
 
     fn check(&self, case: &SimCase) -> CaseReport {
         let tr = Sim::run(case);
-        if std::env::var("VERIF_TRACE").is_ok() {
-            for (i, e) in tr.evs.iter().enumerate() {
-                match e {
-                    Ev::Emit { ix } => {
-                        let em = &tr.emitted[*ix];
-                        println!("{:4} Emit conn={} t={} call={} spans={} tag={:?} {:?}", i, em.conn, em.t, em.call, em.calls_spanned, em.tag, em.pkt);
-                    }
-                    other => println!("{:4} {:?}", i, other),
-                }
-            }
-        }
+        dump_trace(&tr);
         let ix = Index::build(&tr, &case.cfg);
         let mut violations = (self.monitors)(&ix);
         // bytes the reference decoder rejects are reported wherever they are seen
